@@ -640,6 +640,10 @@ def c05_sessions(rng, sid, nscen):
                 steps.append({"op": "disconnect", "k": 1, "expiry": ne})
                 soon = ne == 0 and E >= 3            # ... at once: come back long before the interval it had would have elapsed
                 E = ne
+            elif end == "newexp" and ver == 5:
+                # the session's interval is 0: a DISCONNECT that names another one is a Protocol Error [MQTT-3.14.2-2]; the
+                # session still ends with the connection, a return with Clean Start 0 finds nothing
+                steps.append({"op": "disconnect", "k": 1, "expiry": rng.choice([1, 3, 1000])})
             elif end == "terminate":
                 steps.append({"op": "terminate", "cid": "c"})
                 steps.append({"op": "sleep", "ms": 50})
